@@ -134,32 +134,8 @@ def _traversal(f: Func):
 def r7_6(ctx: Ctx, f: Func, g: Optional[Func] = None, rule="R7.6"):
     """The single-atom move is a function of its arguments and the random stream: nothing is remembered in module-level
     containers between calls (a remembered traversal is stale as soon as the caller changes the bond table in place)."""
-    from ..effects import Effects
-    E = Effects(ctx.repo)
-    for fn in [x for x in (f, g) if x is not None]:
-        for h in ctx.with_helpers(fn):
-            wr = [e for e in E.summary(h) if e.root[0] == "global"]
-            # reads of module-level mutable containers (dict / list / set literals or constructors bound at module level)
-            mod = h.module.node
-            mutable = {t.id for st in mod.body if isinstance(st, (ast.Assign, ast.AnnAssign)) and getattr(st, "value", None) is not None
-                       for t in (st.targets if isinstance(st, ast.Assign) else [st.target]) if isinstance(t, ast.Name)
-                       and (isinstance(st.value, (ast.Dict, ast.List, ast.Set, ast.DictComp, ast.ListComp))
-                            or (isinstance(st.value, ast.Call) and call_name(st.value) in ("dict", "list", "set", "defaultdict", "OrderedDict", "deque")))}
-            local = {a.arg for a in h.node.args.posonlyargs + h.node.args.args + h.node.args.kwonlyargs} | \
-                {x.id for x in ast.walk(h.node) if isinstance(x, ast.Name) and isinstance(x.ctx, ast.Store)}
-            # ... that some function of the module also mutates (a read-only table is a constant, not state)
-            mutated = set()
-            for of in ctx.repo.funcs.values():
-                if of.module is h.module:
-                    for e in E.direct(of):
-                        if e.root[0] == "global":
-                            mutated |= {nm for nm in mutable if nm in e.target}
-            rd = sorted({x.id for x in walk_no_nested(h.node) if isinstance(x, ast.Name) and isinstance(x.ctx, ast.Load)
-                         and x.id in mutable and x.id in mutated and x.id not in local})
-            ctx.ob(rule, h, "module-level state used by %s: writes %s, mutable containers read %s" % (h.name, sorted({e.target for e in wr}), rd),
-                   not wr and not rd,
-                   "the move depends only on its arguments and the random stream: no module-level container is written or consulted"
-                   + ("" if not (wr or rd) else " -- %s" % (wr[0].describe() if wr else "reads `%s`" % rd[0])), node=h.node)
+    from ..util import persistent_state
+    persistent_state(ctx, rule, [x for x in (f, g) if x is not None], "the single-atom move")
 
 
 def r7_2_3(ctx: Ctx, f: Func):
